@@ -186,7 +186,8 @@ let do_ts kvs =
     (String.concat "," (List.map (fun b -> Printf.sprintf "%d:%d:%d" (int_of_nat b.b_path) (int_of_z b.b_mtime) (if b.b_dirty then 1 else 0)) tb))
     (String.concat "," (List.init nn show))
 
-(* aw names=<k> files=<n>:<hex>:<m>,...|- args=<n>,<n>... steps=<step>;<step>;...
+(* aw names=<k> files=<n>:<hex>:<m>,...|- args=<n>,<n>... fault=<step index>:<n>:<e|s>:<count>|- steps=<step>;<step>;...
+   (fault: the editor command at that step runs under the schedule n x OOk, then OErr or OShort count)
    one editing history with the autowrite option (coq/IoAwDefs.v step bufs_modified), the editor started on args[0].  Steps:
      S@<0|1>                     :se noaw / :se aw
      P@<hex>                     the current buffer is edited: the line <hex> is put in front, modified
@@ -214,7 +215,11 @@ let do_aw kvs =
   let show s i = match fs_content s.e_fs (nat_of_int i) with Some c -> hex_of_bytes c | None -> "absent" in
   let word s = Printf.sprintf "%d:%d:%s:%s" (cur s) (if s.e_quit then 1 else 0)
       (match s.e_st with SOk -> "ok" | SRefused -> "refused" | SFailed -> "failed") (String.concat "," (List.init nn (show s))) in
+  let fault = match String.split_on_char ':' (get "fault") with
+    | [i; n; k; a] -> Some (ios i, List.init (ios n) (fun _ -> OOk) @ [if k = "e" then OErr else OShort (nat_of_int (ios a))])
+    | _ -> None in
   let (_, _, _, out) = List.fold_left (fun (s, ids, npos, out) stp ->
+      let sch = match fault with Some (i, l) when i = List.length out -> l | _ -> [] in
       let run1 c = step bufs_modified s c in
       let (s', npos') = match String.split_on_char '@' stp with
         | ["S"; v] -> (run1 (ASet (v = "1")), npos)
@@ -225,14 +230,14 @@ let do_aw kvs =
         | ["F"; "r"; n; h; m] -> (run1 (AForeign (FReplace (nat_of_int (ios n), bytes_of_hex h, z_of_int (ios m)))), npos)
         | ["F"; "t"; n; m] -> (run1 (AForeign (FTouch (nat_of_int (ios n), z_of_int (ios m)))), npos)
         | ["F"; "d"; n] -> (run1 (AForeign (FRemove (nat_of_int (ios n)))), npos)
-        | ["W"; fl; a] -> (run1 (AWrite (now, String.contains fl 'x', String.contains fl '!', None, arg_of a, [])), npos)
+        | ["W"; fl; a] -> (run1 (AWrite (now, String.contains fl 'x', String.contains fl '!', None, arg_of a, sch)), npos)
         | ["Q"; c; a] ->
           let has ch = String.contains c ch in
-          (run1 (AQuit (now, (c.[0] = 'w' || c.[0] = 'x'), (c.[0] = 'x'), has 'a', has '!', arg_of a, [])), npos)
-        | ["E"; a; bang] -> (run1 (AEdit (now, bang = "1", arg_of a, [])), npos)
+          (run1 (AQuit (now, (c.[0] = 'w' || c.[0] = 'x'), (c.[0] = 'x'), has 'a', has '!', arg_of a, sch)), npos)
+        | ["E"; a; bang] -> (run1 (AEdit (now, bang = "1", arg_of a, sch)), npos)
         | ["N"] ->
           (match List.nth_opt args (npos + 1) with
-           | Some n -> let s' = run1 (AEdit (now, false, AName (nat_of_int n), [])) in
+           | Some n -> let s' = run1 (AEdit (now, false, AName (nat_of_int n), sch)) in
              (s', if s'.e_st = SOk && not s.e_quit then npos + 1 else npos)
            | None -> (s, npos))
         | ["B"; id; bang] ->
@@ -240,8 +245,8 @@ let do_aw kvs =
               | [] -> 1000
               | (b, _) :: r -> (match List.assoc_opt (int_of_nat b.b_path) ids with
                   | Some k when k = ios id -> i | _ -> find (i + 1) r) in find 0 s.e_tb in
-          (run1 (ABuffer (now, bang = "1", nat_of_int slot, [])), npos)
-        | ["X"] -> (run1 (AExec (now, [], [])), npos)
+          (run1 (ABuffer (now, bang = "1", nat_of_int slot, sch)), npos)
+        | ["X"] -> (run1 (AExec (now, [], sch)), npos)
         | ["-"] -> (s, npos)
         | _ -> failwith ("aw step " ^ stp) in
       (s', note ids s', npos', word s' :: out)) (s0, note [] s0, 0, []) (split_on ';' (get "steps")) in
